@@ -147,6 +147,16 @@ CLAIMS = {
          "name-bookkeeping specification says so, with that error; no capacity/index/unwrap/overflow/unreachable error reachable "
          "(params_ok re-proved for the constants in the source); tie: S1 incl. malformed stream, outcome + quoted name of every call",
          "panic message text is compared by the harness (prefix + quoted name)", "induction on program size + differential correspondence", "5 C18"),
+ "C19": ("proof: C19_plan_invariant_under_renaming_relabelling_and_list_order — one simulation theorem over all registration programs "
+         "(any length and nesting): for every injective relabelling phi of resources, every injective renaming rho of systems that "
+         "keeps the empty name empty, and access lists that as SETS are the phi-image of the original ones (any permutation, any "
+         "duplication), the second program builds the same plan (layout of system objects, thread-local list, max threads, id "
+         "table); determinism = the planner is a function. tie: S1 metamorphic pairs on the REAL builder: the plan of the variant "
+         "is compared with the plan of the base (real vs real), resources realised as static types or dynamic ids under three "
+         "mappings, crate built with and without the `parallel` feature (separate processes); both are also compared with the model",
+         "TypeId order and hash-map iteration order are shown irrelevant by the invariance of the model + the metamorphic pairs; "
+         "menu (static) systems and controllers with declared data are excluded from the pairs (their access is fixed by their type)",
+         "simulation proof + metamorphic differential correspondence", "5 C19"),
  "C20": ("proof: C20_printed_text_is_the_executed_layout for all registration programs: the text of write_par_seq is the rendering "
          "of the executed layout (boxed systems per stage/group/position) with each system shown by its sanitised name or the "
          "placeholder of its id; printer total in the model; tie: S1 compares the REAL Debug text with the model text and evaluates "
@@ -155,7 +165,7 @@ CLAIMS = {
          "stage/group and are outside the text",
          "invariant induction + differential correspondence", "5 C20"),
 }
-REGISTERED = ["C01", "C02", "C03", "C04", "C05", "C06", "C07", "C08", "C09", "C10", "C11", "C12", "C13", "C14", "C15", "C16", "C17", "C18", "C20"]
+REGISTERED = ["C01", "C02", "C03", "C04", "C05", "C06", "C07", "C08", "C09", "C10", "C11", "C12", "C13", "C14", "C15", "C16", "C17", "C18", "C19", "C20"]
 
 def main():
     props = [json.loads(l) for l in open(os.path.join(VERIF, "properties.jsonl"))]
@@ -172,7 +182,7 @@ def main():
             level_claimed=dict(category="proof", text=text, design_ref="DESIGN.md §" + ref),
             level_note=note + ". Trusted base: " + TB,
             technique="machine-checked proof in Coq (" + tech + ")"))
-    na = [dict(property_id=p["id"], reason="check under construction in this round (not yet registered)")
+    na = [dict(property_id=p["id"], reason="check under construction (not yet registered)")
           for p in props if p["id"] not in REGISTERED]
     m = dict(version=1, setup_cmd="python3 tools/setup.py",
              hooks=dict(guard="verif-hooks",
